@@ -104,6 +104,7 @@ func cmdCLI(args []string) {
 			edge = append(edge, o)
 		}
 	}
+	hostile := hostileDetailObjs(c)
 	// certificates on which the configuration file of the "ok" scenarios changes a verdict (found by linting both ways)
 	var cfgSensitive []*corpus.Obj
 	if okc, err := lint.NewConfigFromFile(okCfg); err == nil {
@@ -134,12 +135,18 @@ func cmdCLI(args []string) {
 		}
 		if intact && s.Sel == "none" && s.Cfg == "none" {
 			nrep++ // one more run of the reading scenarios, on an edge-shaped certificate
+			if len(hostile) > 0 {
+				nrep++ // and one on a certificate whose details carry awkward text (per-cent signs, quotes, mark-up, invalid UTF-8)
+			}
 		}
 		for rep := 0; rep < nrep; rep++ {
 			k := si*7 + rep*131 + int(seed)*17
 			certObj, crlObj := c.Certs[k%len(c.Certs)], c.CRLs[k%len(c.CRLs)]
 			if rep == reps {
 				certObj = edge[k%len(edge)]
+			}
+			if rep == reps+1 {
+				certObj = hostile[k%len(hostile)]
 			}
 			if s.Cfg == "ok" && len(cfgSensitive) > 0 {
 				certObj = cfgSensitive[k%len(cfgSensitive)] // the configuration must be seen to matter
